@@ -624,6 +624,8 @@ def toolchain(p, outs):
 
 def scenario(which, base, mid, hid, cval):
     i0, i1, i2 = base, base + 1, base + 2
+    if sh("idorder") == "desc":     # later definitions carry the smaller ids (a nested message then has a larger id than its user)
+        i0, i1, i2 = base + 2, base + 1, base
     defs = sh("defs")
     imported = sh("imported", 0)
     if sh("kf") and sh("kf") in sh("known", []):
@@ -660,8 +662,15 @@ def scenario(which, base, mid, hid, cval):
                 if k is v:
                     return t
             t = "<sym:%x>" % id(v)
+            # the message ids are base, base+1, base+2: their tokens sort the way the ids do, so a back end that orders its
+            # output by id orders the tokens like the numbers
+            for rank, known in enumerate(sorted_ids):
+                if known is v:
+                    t = "<sym:id%04d>" % rank
             tok.append((v, t))
             return t
+
+        sorted_ids = [i2, i1, i0] if sh("idorder") == "desc" else [i0, i1, i2]
 
         for mt in p.message_ids.values():
             mt.value = token(mt.value)
